@@ -3,27 +3,54 @@
 EXTENDS LogClient, Json
 
 \* exhaustive check: history variables do not distinguish states
-StateView == <<config, pending, served, Returned, ncalls>>
+StateView == <<config, client, pending, served, Returned, ncalls>>
 
 (* --- export: every completed call as one case; sequences of calls as behaviours --- *)
 \* A first call is represented by (method, verdict, how it ended, whether it was repeated); the LAST call of a
 \* behaviour is kept in full, so every (representative prefix, call) pair ends exactly one exported behaviour.
 Abstract(s) == IF s = None THEN None ELSE <<s.method, s.expect, s.end, Len(s.answers), s.result.k>>
-ExportView == <<config, pending, served, Returned, ncalls, IF ncalls >= MaxCalls THEN last ELSE Abstract(last),
+ExportView == <<config, client, pending, served, Returned, ncalls, IF ncalls >= MaxCalls THEN last ELSE Abstract(last),
                 IF ncalls >= MaxCalls THEN <<>> ELSE [i \in 1..Len(hist) |-> Abstract(hist[i])]>>
 
 \* quick tier: a first call is represented by (kind of method, value or error, repeated or not)
 Coarse(s) == IF s = None THEN None ELSE <<Kind(s.method), s.result.k, Len(s.answers) > 1>>
-ExportViewCoarse == <<config, pending, served, Returned, ncalls, IF ncalls >= MaxCalls THEN last ELSE Coarse(last),
+ExportViewCoarse == <<config, client, pending, served, Returned, ncalls, IF ncalls >= MaxCalls THEN last ELSE Coarse(last),
                       IF ncalls >= MaxCalls THEN <<>> ELSE [i \in 1..Len(hist) |-> Coarse(hist[i])]>>
 
-ExportCase == (last # None /\ ncalls = 1) => PrintT(<<"CASE", ToJson(last)>>)
 ExportBehaviour == (last # None /\ ncalls = MaxCalls) => PrintT(<<"BEH", ToJson(hist)>>)
 
-\* the key options matter to the signed endpoints: the others are exported under the two single-option configurations
-CaseBound == (pending' # None /\ Kind(pending'.method) = "data") => config \in {"der", "pem"}
+\* every key option / every chain shape of the specification (cfg: KeyOptions <- AllKeyOptions, ShapeChains <- AllShapeChains)
+AllKeyOptions == OptionNames
+AllShapeChains == ShapeNames
+\* The specification's verdicts depend on a key option only through (construction verdict, key verified with, which of the
+\* two options are set): one option of every such class
+KeyOptionClass(o) == <<Constructs(o), VerifKeyOf(o), Present(o.der), Present(o.pem)>>
+RepresentativeKeyOptions == {(CHOOSE o \in OptionList : KeyOptionClass(o) = k).name : k \in {KeyOptionClass(o) : o \in OptionList}}
+
+\* The key options matter to the signed endpoints: the others are exported under the two single-option configurations.
+\* A client built from non-standard key material, and a precertificate chain of a non-default shape, are each probed with
+\* one 200 answer of every class in ProbeClasses on the signed endpoints (the shapes under the option "der").
+FinalAnswer(s) == s.answers[Len(s.answers)]
+Probe(s) == s.end = "answered" /\ Len(s.answers) = 1 /\ FinalAnswer(s).status = 200 /\ FinalAnswer(s).class \in ProbeClasses
+CaseBound ==
+  /\ (pending' # None /\ Kind(pending'.method) = "data") => config.name \in {"der", "pem"}
+  /\ config.name \notin BaseKeyOptions =>
+        /\ pending' # None => pending'.answers = <<>> /\ pending'.chain \notin ShapeChains
+        /\ last' # None => Probe(last')
+  /\ (pending' # None /\ pending'.chain \in ShapeChains) => config.name = "der" /\ pending'.answers = <<>>
+  /\ (last' # None /\ last'.chain \in ShapeChains) => Probe(last')
+
+\* (TLC evaluates invariants on successors that the action constraint then discards: the guard repeats the bound)
+CaseInBound(s) == /\ Kind(s.method) = "data" => s.config \in {"der", "pem"}
+                  /\ (s.config \notin BaseKeyOptions \/ s.chain \in ShapeChains) => Probe(s)
+                  /\ s.chain \in ShapeChains => s.config = "der"
+ExportCase == (last # None /\ ncalls = 1 /\ CaseInBound(last)) => PrintT(<<"CASE", ToJson(last)>>)
+
+\* the construction cases: one per key option (every option has the initial state in which the client exists)
+ExportKeyCases == (ncalls = 0 /\ pending = None /\ client = "built") =>
+   PrintT(<<"KCASE", ToJson([config |-> config.name, opt |-> OptionInfo(config)])>>)
 
 \* the entry-decoder cases (a pure table)
-ExportEntryCases == (ncalls = 0 /\ pending = None /\ config = CHOOSE c \in KeyOptions : TRUE) =>
+ExportEntryCases == (ncalls = 0 /\ pending = None /\ client = "built" /\ config.name = CHOOSE c \in KeyOptions : TRUE) =>
    \A c \in EntryClasses : PrintT(<<"ECASE", ToJson([class |-> c, raw |-> EntryExpect[c].raw, parsed |-> EntryExpect[c].parsed])>>)
 =============================================================================
